@@ -20,8 +20,9 @@ func init() {
 			{PkgPath: fsPkg, Func: "verifC14DirConcurrent", Opt: big, Replay: "model"},
 			{PkgPath: fsPkg, Func: "verifC14MemConcurrent", Opt: big, Replay: "race"},
 			{PkgPath: fsPkg, Func: "verifC14MemSequences", Opt: big, Replay: "race"},
+			{PkgPath: fsPkg, Func: "verifC14DirSequences", Opt: big, Replay: "model"},
 		},
-		Covers: []string{"c14/mem", "c14/mem-fds", "c14/dir", "c14/dirconc", "c14/memconc", "c14/sequences"},
+		Covers: []string{"c14/mem", "c14/mem-fds", "c14/dir", "c14/dirconc", "c14/memconc", "c14/sequences", "c14/dirsequences"},
 		Bounds: "MemFs: lock-discipline VCs for all 10 methods plus three misuse calls, from a pre-history with one finished file, one append descriptor and one read descriptor; directory ∈ {existing, missing}, name ∈ {a,b,c}, data ≤ 2 symbolic bytes, offset fully symbolic, length ≤ 3; every path including the panics of checkDir/checkMode. Descriptor distinctness over all 4-step Create/Open/Close histories. DirFs: one syscall per operation for the 7 single-syscall methods; four two-thread scenarios (List ‖ Create·List, Create ‖ Create of one name, reader ‖ AtomicCreate, reader ‖ Delete) interleaved at every system call and Go synchronisation operation with a happens-before race check. MemFs additionally: seven two-thread scenarios (Create ‖ Create, Open ‖ Open, ReadAt ‖ Append, List ‖ Create, reader ‖ AtomicCreate, reader ‖ Delete, Link ‖ Append) under every interleaving at synchronisation points with the happens-before race check and linearizability oracles — these decide; a failing lock-discipline condition that neither this harness nor the native race detector confirms is reported as inconclusive (the conditions are sufficient, not necessary).",
 		Assumptions: []string{
 			"meta-theorem (trusted): lock discipline (all shared accesses inside one critical section per operation, lock released on every exit) ⇒ data-race freedom and linearizability w.r.t. the sequential behaviour, which C12 relates to the reference model",
